@@ -139,6 +139,9 @@ def string_literals(text):
         if code is None or "#" in line or "<<" in line or "%" in line:
             continue
         for m in _STR.finditer(line):
+            before, after = line[:m.start()].rstrip(), line[m.end():].lstrip()
+            if before.endswith("[") or after.startswith(("=>", "]")):
+                continue          # a literal hash key / index: its content is part of the meaning (literal-key lookup)
             out.append((idx + 1, m.start(), m.end()))
     return out
 
